@@ -6,15 +6,15 @@ import connfam as cf
 
 SPECS = ['Transport.tla', 'TransportTrace.tla']
 INVS = ['PoolBound', 'IdleBound', 'OpenBound', 'NoDuplicates', 'PooledDisjoint', 'NoLeak', 'PooledRightAddress',
-        'RecoveryBound', 'CloseClosesAll']
-PROPS = ['NoDeadHandout', 'SpareBusy', 'RightAddress']
+        'RecoveryBound', 'CloseClosesAll', 'ClosedAllShut']
+PROPS = ['NoDeadHandout', 'SpareBusy', 'RightAddress', 'NoCollateralClose']
 TRACE_INVS = ['PoolBound', 'IdleBound', 'NoDuplicates', 'PooledDisjoint', 'PooledRightAddress', 'RecoveryBound',
-              'NoWrongAddress', 'NoDeadHandoutTr', 'NoBusyClosed', 'AppendWithinLimit', 'CloseClosedAll', 'NoOtherError', 'NoDupExec']
+              'NoWrongAddress', 'NoDeadHandoutTr', 'NoBusyClosed', 'AppendWithinLimit', 'CloseClosedAll', 'NoOtherError', 'NoDupExec', 'NoHealthyMarkedDead']
 OWN = {'PoolBound': 'C13', 'IdleBound': 'C13', 'OpenBound': 'C13', 'NoDuplicates': 'C13', 'PooledDisjoint': 'C13', 'NoLeak': 'C13',
        'AppendWithinLimit': 'C13',
        'PooledRightAddress': 'C14', 'RecoveryBound': 'C14', 'NoDeadHandout': 'C14', 'RightAddress': 'C14', 'NoWrongAddress': 'C14',
        'NoDeadHandoutTr': 'C14', 'NoOtherError': 'C14',
-       'NoDupExec': 'C04', 'SpareBusy': 'C15', 'CloseClosesAll': 'C15', 'NoBusyClosed': 'C15', 'CloseClosedAll': 'C15'}
+       'NoDupExec': 'C04', 'NoHealthyMarkedDead': 'C19', 'NoCollateralClose': 'C19', 'SpareBusy': 'C15', 'CloseClosesAll': 'C15', 'ClosedAllShut': 'C15', 'NoBusyClosed': 'C15', 'CloseClosedAll': 'C15'}
 
 def consts(addrs=('a',), ids=3, callers=(1, 2), maxconns=2, maxidle=1, ka=1, ito=2, maxclock=3, maxcalls=2, kills=1, dev=()):
     return {'Addrs': set(addrs), 'ConnIds': set(range(1, ids + 1)), 'Callers': set(callers), 'MaxConns': maxconns, 'MaxIdle': maxidle,
@@ -42,6 +42,12 @@ def to_steps(acts):
             steps.append({'a': name, 'addr': a[0]})
         elif name == 'Drop':
             steps.append({'a': 'Drop', 'k': a[0]})
+        elif name == 'Expire':
+            steps.append({'a': 'Expire', 'k': a[0]})
+            for st in reversed(steps[:-1]):      # the call this caller has in flight was made with CallWithContext
+                if st['a'] == 'Get' and st['k'] == a[0]:
+                    st['ctx'] = True
+                    break
     return steps
 
 def sched(name, c, acts):
